@@ -310,14 +310,19 @@ Definition struct_legal (ds : list (list ndesc)) : bool :=
       && reorder_legal d1 d5 && lift_legal d5 d6 && drop_legal d6 d7
   | _ => false
   end.
-Definition no_reorder_observed (ds : list (list ndesc)) : bool :=
-  match ds with
-  | [d0; d1; d2; _; _; d5; _; _] => desc_eqb d0 d2 && desc_eqb d1 d5
-  | _ => false
-  end.
+(* the real reorder pass moved nothing: on the raw chain (pass run alone) / on the fused chain *)
+Definition no_reorder_raw (ds : list (list ndesc)) : bool :=
+  match ds with [d0; _; d2; _; _; _; _; _] => desc_eqb d0 d2 | _ => false end.
+Definition no_reorder_fused (ds : list (list ndesc)) : bool :=
+  match ds with [_; d1; _; _; _; d5; _; _] => desc_eqb d1 d5 | _ => false end.
 Definition optimised_desc (ds : list (list ndesc)) : list ndesc := nth 7 ds [].
 
+(* the class C03-reorder, decided with the MODEL's flag / cost table: the chain the pass is given
+   holds a block the stable sort really re-orders.  `in_reorder_class` (the fused raw chain, i.e.
+   what build_plan sorts) is the known-finding class of the case; `reorders_alone` only excuses the
+   structural "moved nothing" test of the pass run alone on a raw chain that has a pre-fused block. *)
 Definition in_reorder_class (raw : list node) : bool := existsb node_reorders (fuse raw).
+Definition reorders_alone (raw : list node) : bool := existsb node_reorders raw.
 
 (* non-terminal Materialized nodes of the raw chain: (index, tag, payload) *)
 Fixpoint mid_mats (i : nat) (c : list node) : list (nat * tag * list val) :=
@@ -423,7 +428,7 @@ Definition judge_common (term : tag) (raw : list node) (parts : nat)
   {| cm_agree := descs_agree ru (passes raw) ds && opinfos_agree (chain_ops raw) ois
                  && execs_agree term raw parts os;
      cm_struct := struct_legal ds;
-     cm_reorder_ok := no_reorder_observed ds || cls;
+     cm_reorder_ok := (no_reorder_raw ds || reorders_alone raw) && (no_reorder_fused ds || cls);
      cm_class := cls |}.
 
 Definition finish (c : common) (agree_extra prop_extra sem : bool) : verdict :=
